@@ -52,6 +52,10 @@ def source_case(draw, big=False):
         pur = 1.0
     return {"prog": prog, "input": vin, "brightness": draw(bright), "purity": pur,
             "indist": draw(indist), "threshold": thr,
+            # the Source object may have a history: an assignment it refused before it is used
+            "refused": draw(st.sampled_from([None, None, None, ["indistinguishability", 1.5], ["purity", 0.2],
+                                             ["brightness", -0.1], ["indistinguishability", True],
+                                             ["probability_threshold", 2]])),
             "backend": draw(st.sampled_from(["permanent", "slos"]))}
 
 
@@ -128,6 +132,14 @@ def run_source(case):
     b, p, ind, thr = case["brightness"], case["purity"], case["indist"], case["threshold"]
     src = call("Source()", emulator.Source, purity=p, brightness=b, indistinguishability=ind,
                probability_threshold=thr)
+    if case.get("refused"):
+        try:
+            setattr(src, case["refused"][0], case["refused"][1])
+        except Exception:  # noqa: BLE001, S110   (refused, as it should be; the source is what it was)
+            pass
+        else:
+            setattr(src, case["refused"][0], {"indistinguishability": ind, "purity": p, "brightness": b,
+                                              "probability_threshold": thr}[case["refused"][0]])
     full = full_input(c, vin)
     nph = sum(full)
     U = c.U_full
